@@ -1,8 +1,10 @@
 #!/bin/bash
 # run every claimed check (quick tier by default) on the current tree; print one line per property
 T=${1:-quick}
-for p in $(python3 -c "import json;print(' '.join(c['property_id'] for c in json.load(open('/verif/MANIFEST.json'))['checks']))"); do
-  s=$(date +%s); python3 /verif/verif.py check $p --tier $T > /tmp/all_$p.out 2>&1; rc=$?; e=$(date +%s)
-  echo "$p rc=$rc $((e-s))s $(tail -1 /tmp/all_$p.out | cut -c1-120)"
-  grep -E "VIOLATION|inconclusive" /tmp/all_$p.out | cut -c1-220 | head -4
+D=$(cd "$(dirname "$0")/.." && pwd)
+cd "$D"
+for p in $(python3 -c "import json;print(' '.join(c['property_id'] for c in json.load(open('MANIFEST.json'))['checks']))"); do
+  s=$(date +%s); python3 verif.py check $p --tier $T ${JOBS:+--jobs $JOBS} > /tmp/all_${T}_$p.out 2>&1; rc=$?; e=$(date +%s)
+  echo "$p rc=$rc $((e-s))s $(tail -1 /tmp/all_${T}_$p.out | cut -c1-120)"
+  grep -E "VIOLATION|inconclusive:" /tmp/all_${T}_$p.out | cut -c1-220 | head -6
 done
